@@ -89,6 +89,7 @@ package fsm
 //@ pure static func containersWF() bool = forall c *container.Container :: c != nil ==> c.Value != nil && ival(c.Value) != 0
 
 //@ func (*State).Parse
+//@   logged
 //@   requires graph: graphWF() && containersWF() && s != nil
 //@   requires a-cb-disjoint: forall k *container.Container, j *container.Container :: k.ValueSetByUser == nil || k.ValueSetByUser != ival(j.Value)
 //@   ensures rejected: !accepts(s, args, false) ==> result != nil
